@@ -186,6 +186,16 @@ fn run_script(script: &Value, out: &mut Vec<Value>) {
     while let Some(st) = queue.pop_front() {
         let st = &st;
         let op = st["op"].as_str().unwrap();
+        if op == "closeall" {
+            // every link that exists goes away (pending ones first complete their handshake if they can)
+            let mut names: Vec<String> = nets.keys().cloned().collect();
+            names.sort();
+            for n in names.into_iter().rev() {
+                queue.push_front(json!({"op": "close", "n": n}));
+                queue.push_front(json!({"op": "finish", "n": n}));
+            }
+            continue;
+        }
         if op == "idle" {
             // let the router run until it has nothing to do (bounded), as ordinary event / consume steps
             let budget = st["max"].as_u64().unwrap_or(400);
